@@ -5,7 +5,16 @@ VARIABLE x
 Init == x = 0
 Next == UNCHANGED x
 Sz(o) == [c \in 1..o.NC |-> o.L]
+\* long run-structured streams through the real converters: the only possible defect is the chromosome order
+\* (o.must, computed by MC_RefusalRuns!ChromOrderBadRuns); "silent" = exit status 0 without an output file
+ChromOrderBadRuns(r) == \E i \in 1..(Len(r) - 1) : r[i][1] > r[i+1][1]
+VerdictLong(o) ==
+  IF o.obs.result \notin {"ok", "err", "silent"} THEN "did-not-return-normally"
+  ELSE IF ChromOrderBadRuns(o.runs) /\ o.obs.result = "ok" THEN "accepted-unrepresentable-input"
+  ELSE IF ChromOrderBadRuns(o.runs) /\ o.obs.result = "silent" THEN "refused-with-exit-status-0"
+  ELSE "ok"
 Verdict(o) ==
+  IF "long" \in DOMAIN o THEN VerdictLong(o) ELSE
   IF o.obs.result \notin {"ok", "err"} THEN "did-not-return-normally"
   ELSE IF MustRefuse(o.kind, o.items, Sz(o), o.NC, o.sorted = 1) /\ o.obs.result # "err" THEN "accepted-unrepresentable-input"
   ELSE "ok"
